@@ -65,8 +65,13 @@ class _Reentrant(Signer):
     def __init__(self, inner):
         self.inner = inner
         self.records = []
+        self.own_cert = []
 
     def write_signature_info(self, signature_info):
+        if not self.own_cert:
+            # first use: it certifies its own audit key (an issuance nested inside the issuance it is used for)
+            self.own_cert.append(self_sign([T.enc_tlv(8, b'auditor'), T.enc_tlv(8, b'KEY'), T.enc_tlv(8, b'a1')], b'audit-public-key',
+                                           K.SyntheticSigner(72, 69, 200, [T.enc_tlv(8, b'auditor')], 7)))
         self.inner.write_signature_info(signature_info)
 
     def get_signature_value_size(self):
@@ -359,7 +364,118 @@ def _grid(tier):
                        'now': [2024, 1, 1, 0, 0, 0], 'clock_ms': 1, 'target_total': total}
 
 
+# ---- issuance from another key through the command line front end (pyndnsec sign-cert) -------------------------------------
+_CLI = {}
+
+
+def _cli_world():
+    """One PIB with a CA identity, built once per process (in a scratch directory that is removed at exit)."""
+    if _CLI:
+        return _CLI
+    import atexit
+    import os
+    import shutil
+    import tempfile
+    from ndn.security import KeychainSqlite3, TpmFile
+    d = tempfile.mkdtemp(prefix='c16-cli-')
+    atexit.register(shutil.rmtree, d, ignore_errors=True)
+    KeychainSqlite3.initialize(os.path.join(d, 'pib.db'), 'tpm-file', os.path.join(d, 'ndnsec-key-file'))
+    kc = KeychainSqlite3(os.path.join(d, 'pib.db'), TpmFile(os.path.join(d, 'ndnsec-key-file')))
+    ca = kc.touch_identity('/c16/ca')
+    key = ca.default_key()
+    _CLI.update(dir=d, ca_pub=bytes(key.key_bits), ca_cert=[bytes(c) for c in key.default_cert().name],
+                ca_key=[bytes(c) for c in key.name])
+    kc.shutdown()
+    return _CLI
+
+
+def run_cli(case):
+    import argparse
+    import base64
+    import contextlib
+    import io
+    import os
+    from Cryptodome.Hash import SHA256
+    from Cryptodome.PublicKey import ECC
+    from Cryptodome.Signature import DSS
+    import ndn.bin.sec.cmd_sign_cert as cmd
+    r = Result()
+    wld = _cli_world()
+    _Clock._now = dt.datetime(*case['now'], tzinfo=dt.timezone.utc)
+    secv2.timestamp = lambda: case['clock_ms']
+    old_dt = cmd.datetime
+    cmd.datetime = _Clock
+    subject = K.KEYS[case['subject']]
+    key_name = [T.enc_tlv(8, b'c16'), T.enc_tlv(8, b'user'), T.enc_tlv(8, b'KEY'), T.enc_tlv(8, bytes.fromhex(case['key_id']))]
+    try:
+        _n, req = sign_req(key_name, subject['pub'], K.SyntheticSigner(72, 70, 200, key_name, 3))
+        reqfile = os.path.join(wld['dir'], 'req.txt')
+        with open(reqfile, 'w') as f:
+            f.write(base64.standard_b64encode(bytes(req)).decode())
+        target = {'identity': '/c16/ca', 'key': None, 'cert': None}[case['by']] or \
+            '/' + '/'.join(_uri(c) for c in (wld['ca_key'] if case['by'] == 'key' else wld['ca_cert']))
+        args = argparse.Namespace(tpm='tpm-file', tpm_path=None, path=wld['dir'], not_before=case['s'], not_after=case['e'],
+                                  issuer_id=case['issuer'], key_locator=target, file=reqfile)
+        out = io.StringIO()
+        with contextlib.redirect_stdout(out):
+            ret = cmd.execute(args)
+    except SystemExit as e:
+        return r.bad('C16/cli/harness/exit', f'{e} {out.getvalue()[:200]}')
+    except Exception as e:
+        return r.bad(f'C16/cli/raised/{type(e).__name__}', repr(e)[:300])
+    finally:
+        cmd.datetime = old_dt
+    if ret:
+        return r.bad(f'C16/cli/refused/{ret}', out.getvalue()[:200])
+    try:
+        wire = base64.standard_b64decode(out.getvalue())
+        c = P.strict_cert(wire)
+    except Exception as e:
+        return r.bad('C16/cli/output-malformed', f'{e!r} {out.getvalue()[:120]}')
+    tag = 'cli'
+    now = _Clock._now
+    start = dt.datetime.strptime(case['s'], '%Y%m%dT%H%M%S') if case['s'] else now
+    end = dt.datetime.strptime(case['e'], '%Y%m%dT%H%M%S') if case['e'] else start + dt.timedelta(days=365)
+    vp = c['validity']
+    if vp != (fmt(start), fmt(end)):
+        r.bad(f'C16/{tag}/validity-period/{"given" if case["s"] else "default"}-start/{"given" if case["e"] else "default"}-end',
+              f'{vp} expected {fmt(start)}..{fmt(end)} (-s {case["s"]} -e {case["e"]}, now {fmt(now)})')
+    want_name = key_name + [ref_comp_from_uri(case['issuer']), T.enc_tlv(54, T.enc_nni(case['clock_ms']))]
+    if c['name'] != want_name:
+        r.bad(f'C16/{tag}/name', f'{[x.hex() for x in c["name"]]} != {[x.hex() for x in want_name]}')
+    if c['content'] != subject['pub']:
+        r.bad(f'C16/{tag}/content', '')
+    if not c['meta'] or c['meta']['content_type'] != 2:
+        r.bad(f'C16/{tag}/content-type', str(c['meta']))
+    kl = c['sig_info']['key_locator']['name'] if c['sig_info'] and c['sig_info']['key_locator'] else None
+    if kl != wld['ca_cert']:
+        r.bad(f'C16/{tag}/key-locator', f'{kl}')
+    try:
+        DSS.new(ECC.import_key(wld['ca_pub']), 'fips-186-3', 'der').verify(SHA256.new(c['signed']), c['sig_value'])
+    except ValueError:
+        r.bad(f'C16/{tag}/signature-does-not-verify', '')
+    r.key = (case['s'] is None, case['e'] is None, case['by'], case['issuer'])
+    r.classes = ('cli', 'default-start' if case['s'] is None else 'given-start', 'default-end' if case['e'] is None else 'given-end')
+    return r
+
+
+def _uri(comp):
+    from ndn.encoding import Component
+    return Component.to_str(comp)
+
+
+def _cli_case():
+    stamp = _DATES.map(lambda d: '%04d%02d%02dT%02d%02d%02d' % tuple(d))
+    return st.fixed_dictionaries({
+        's': st.one_of(st.none(), stamp, stamp), 'e': st.one_of(st.none(), st.none(), stamp),
+        'issuer': st.sampled_from(['NA', 'ca', 'x-1', '32=k', 'a%2Fb']), 'by': st.sampled_from(['identity', 'key', 'cert']),
+        'subject': st.sampled_from(SUBJECTS), 'key_id': st.sampled_from(['01', '6b31', 'ff00']),
+        'now': _DATES.filter(lambda d: d[0] < 9900), 'clock_ms': st.integers(0, 2 ** 44)})
+
+
 SUBCHECKS = {
+    'cli-sign-cert': SubCheck(run_cli, strategy=lambda tier: _cli_case(), examples={'quick': 120, 'thorough': 3000},
+                              note='issuance through the pyndnsec sign-cert front end: -s / -e given or defaulted'),
     'grid': SubCheck(run_case, enumerate=_grid, exhaustive={'quick': True, 'thorough': True},
                      note='synthetic issuing signer (R reserved, r written) x total certificate size around 253'),
     'certs': SubCheck(run_case, strategy=lambda tier: _case(), examples={'quick': 2500, 'thorough': 80000}),
